@@ -226,6 +226,17 @@ func (ex *Ex) callByContract(fr *Frame, st *State, ins ssa.Instruction, callee *
 	envPost.pkgName = ctr.PkgName
 	envPost.results = svs
 	envPost.resNames = resultNames(callee.Signature)
+	if ctr.Defines != nil && len(svs) == 1 {
+		d, err := ex.tr(envPost, ctr.Defines)
+		if err != nil {
+			unsupp("contract of %s: defines: %v", cname, err)
+		}
+		if !d.T.S.Eq(svs[0].T.S) {
+			unsupp("contract of %s: defines has sort %s, result %s", cname, d.T.S, svs[0].T.S)
+		}
+		ex.note("result of " + cname + " is named by a spec function (function assumed pure and deterministic)")
+		st.Assume(Eq(svs[0].T, d.T))
+	}
 	for _, en := range ctr.Ensures {
 		t, err := ex.trBool(envPost, en.E)
 		if err != nil {
@@ -336,8 +347,11 @@ func (ex *Ex) invoke(fr *Frame, st *State, ins ssa.Instruction, cc *ssa.CallComm
 			return
 		}
 	}
-	// iface method spec?
-	if im := ex.findIfaceMethod(cc.Value.Type(), m.Name()); im != nil {
+	// iface method spec? (several may share a name, e.g. Unwrap() error / Unwrap() []error: pick by result sort)
+	for _, im := range ex.findIfaceMethods(cc.Value.Type(), m.Name()) {
+		if sig.Results().Len() != 1 {
+			break
+		}
 		env := &Env{ex: ex, fr: nil, st: st, vars: map[string]SV{}, pkgName: im.PkgName}
 		env.vars["self"] = SV{T: recv, Ty: SType{G: cc.Value.Type()}}
 		for i, p := range im.Params {
@@ -349,12 +363,13 @@ func (ex *Ex) invoke(fr *Frame, st *State, ins ssa.Instruction, cc *ssa.CallComm
 		if err != nil {
 			unsupp("iface method spec %s: %v", m.Name(), err)
 		}
-		if sig.Results().Len() == 1 {
-			res = ex.coerceNil(res, SType{G: sig.Results().At(0).Type()})
-			// dispatch facts for library types are added at query time (instantiate.go)
-			k(st, Val{T: res.T})
-			return
+		res = ex.coerceNil(res, SType{G: sig.Results().At(0).Type()})
+		if res.T == nil || !res.T.S.Eq(w.SortOf(sig.Results().At(0).Type())) {
+			continue
 		}
+		// dispatch facts for library types are added at query time (query.go)
+		k(st, Val{T: res.T})
+		return
 	}
 	// extern method contract keyed by the static interface type
 	if ec, ok := w.Externs["("+cc.Value.Type().String()+")."+m.Name()]; ok {
@@ -366,23 +381,20 @@ func (ex *Ex) invoke(fr *Frame, st *State, ins ssa.Instruction, cc *ssa.CallComm
 	k(st, res)
 }
 
-func (ex *Ex) findIfaceMethod(it types.Type, method string) *IfaceMethod {
+func (ex *Ex) findIfaceMethods(it types.Type, method string) []*IfaceMethod {
 	ims := ex.W.IfaceMs[method]
-	if len(ims) == 0 {
-		return nil
-	}
 	itn := ex.W.shortType(it)
-	var wild *IfaceMethod
+	var exact, wild []*IfaceMethod
 	for _, im := range ims {
 		if im.Iface == "*" {
-			wild = im
+			wild = append(wild, im)
 			continue
 		}
 		if im.Iface == itn || strings.HasSuffix(itn, "."+im.Iface) || strings.HasSuffix(itn, "/"+im.Iface) {
-			return im
+			exact = append(exact, im)
 		}
 	}
-	return wild
+	return append(exact, wild...)
 }
 
 func (ex *Ex) invokeByContract(fr *Frame, st *State, ins ssa.Instruction, ctr *Contract, recv *T, rt types.Type, args []SV, sig *types.Signature, k func(*State, Val)) {
